@@ -218,11 +218,19 @@ def check_case(case):
                 out.bad(f"ustar[{t}] = {u!r}, expected {p['ustar']!r}")
         # label-based selection
         for k, name in enumerate(names):
-            sel = ds.sel(tower=name)["footprint"].values
+            try:
+                sel = ds.sel(tower=name)["footprint"].values
+            except KeyError:
+                out.bad(f".sel(tower={name!r}) fails: tower names in the file are {[str(v) for v in ds['tower'].values]}")
+                continue
             if not all(np.array_equal(sel[t], np.asarray(results[name][t]["flx"], np.float64)) for t in range(nt)):
                 out.bad(f".sel(tower={name!r}) does not return that tower's fields")
         for t, lab in enumerate(want_labels):
-            sel = ds.sel(time=lab)["concentration"].values
+            try:
+                sel = ds.sel(time=lab)["concentration"].values
+            except KeyError:
+                out.bad(f".sel(time={lab!r}) fails: the label of exported step {t} is not in the file (time labels {labels})")
+                continue
             if not all(np.array_equal(sel[k], np.asarray(results[n_][t]["conc"], np.float64)) for k, n_ in enumerate(names)):
                 out.bad(f".sel(time={lab!r}) does not return that step's fields")
     finally:
